@@ -247,6 +247,23 @@ func c03Observe(ctx *core.Ctx, consumer, reach string, tv truthVal) (truthy bool
 	case "hyphen":
 		x = "o.some-key"
 		data["o"] = map[string]any{"some-key": tv.V}
+	case "promoted", "promotedptr", "promotednested":
+		// the value is a nil *struct field that an embedded struct promotes into struct (root) data
+		x = "x"
+		var root any = c03RootEmb{c03Emb: c03Emb{T1: true}}
+		if reach == "promotedptr" {
+			root = &c03RootEmb{c03Emb: c03Emb{T1: true}}
+		}
+		if reach == "promotednested" {
+			x = "o.x"
+			root = map[string]any{"o": c03RootEmb{}, "f0": false, "t1": true}
+		}
+		ctx.Eval(1)
+		out, err = renderString(c03TruthTpl(consumer, x), root)
+		if err != nil {
+			return false, err, out
+		}
+		return c03Judge(consumer, out)
 	case "ptrfield":
 		// the value is a nil *struct FIELD of struct root data
 		x = "x"
@@ -272,6 +289,18 @@ func c03Observe(ctx *core.Ctx, consumer, reach string, tv truthVal) (truthy bool
 
 type c03Tagged struct {
 	Val any `json:"val"`
+}
+
+// c03RootEmb: the same fields, promoted from an embedded struct
+type c03Emb struct {
+	X  *vStruct `json:"x"`
+	F0 bool     `json:"f0"`
+	T1 bool     `json:"t1"`
+}
+
+type c03RootEmb struct {
+	c03Emb
+	Own string `json:"own"`
 }
 
 type c03RootPtr struct {
@@ -377,7 +406,7 @@ func (c *c03Case) Run(ctx *core.Ctx) {
 		obs := map[string]bool{}
 		var truthyBy, falsyBy []string
 		for _, cons := range c03Consumers {
-			if c03InExpr[cons] && (c.Reach == "tagfield" || c.Reach == "dotindex" || c.Reach == "hyphen") {
+			if c03InExpr[cons] && (c.Reach == "tagfield" || c.Reach == "dotindex" || c.Reach == "hyphen" || c.Reach == "promotednested") {
 				// these paths are spellings of the stack's path syntax, not of the expression language
 				continue
 			}
@@ -418,7 +447,7 @@ func init() {
 		ID:    "C03",
 		Level: "exploration",
 		Rule: "chain part: every sibling list up to the bound over {plain, v-if(T/F), v-else-if(T/F), v-else, v-for over an empty / one-element list, v-else / v-else-if members that are themselves loops} x separators {none, whitespace, comment, both} x placements {top, div, v-for x2, <template> members, nested in a taken branch, deep, as the whole of a component file with element members / with <template> members}; oracle: reference chain evaluator gives the ordered marker list. " +
-			"truth part: 46 Go values x 8 ways of reaching them (variable, nested key, loop item, struct field by JSON tag, dotted index, hyphenated key, slot content evaluated a second time after a value of the opposite truthiness, a loop variable that shadows an outer variable of the opposite truthiness) x 12 consumers (v-if, v-else-if, !x, v-show, :attr, :class object, !!x, x && true, !x && true, x || false, x ? : in a binding, :attr with !x, v-show next to a static style and on v-if / v-else members); oracles: documented table and agreement between consumers. non-trivial = chain of >=2 members with defined semantics, or any truth case",
+			"truth part: 46 Go values x 8 ways of reaching them (variable, nested key, loop item, struct field by JSON tag, dotted index, hyphenated key, slot content evaluated a second time after a value of the opposite truthiness, a loop variable that shadows an outer variable of the opposite truthiness; a nil pointer also as a field of struct root data, own and promoted from an embedded struct) x 12 consumers (v-if, v-else-if, !x, v-show, :attr, :class object, !!x, x && true, !x && true, x || false, x ? : in a binding, :attr with !x, v-show next to a static style and on v-if / v-else members); oracles: documented table and agreement between consumers. non-trivial = chain of >=2 members with defined semantics, or any truth case",
 		Bounds:      map[string]string{"quick": "sibling lists of length <= 5", "thorough": "sibling lists of length <= 6"},
 		Assumptions: []string{"what an orphan v-else/v-else-if renders, and members after a v-else, are unconstrained (only plain siblings are checked there)", "NaN and the string \"false\" are checked for uniformity only"},
 		Decode:      core.DecodeAs[c03Case](),
@@ -426,6 +455,9 @@ func init() {
 			for _, tv := range truthValues {
 				if tv.Name == "nil_ptr" {
 					emit(&c03Case{Part: "truth", Val: tv.Name, Reach: "ptrfield"})
+					emit(&c03Case{Part: "truth", Val: tv.Name, Reach: "promoted"})
+					emit(&c03Case{Part: "truth", Val: tv.Name, Reach: "promotedptr"})
+					emit(&c03Case{Part: "truth", Val: tv.Name, Reach: "promotednested"})
 				}
 				for _, r := range []string{"var", "nested", "item", "tagfield", "dotindex", "hyphen", "slotrow", "shadow"} {
 					if (r == "item" || r == "tagfield" || r == "dotindex" || r == "hyphen" || r == "slotrow" || r == "shadow") && tv.Name == "missing" {
